@@ -236,6 +236,7 @@ int muggle_path_join(const char *path1, const char *path2, char *ret, unsigned i
 	}
 
 	strncpy(ret, path1, max_len);
+	ret[len_path1] = '\0';
 
 	if (*path2 == '\0')
 	{
